@@ -511,3 +511,129 @@ pub fn proto_extensions(ctx: &Ctx) {
         ctx.nontrivial();
     }
 }
+
+/// X3: the namespace declaration of a prototype extension attribute moved from the root element
+/// to an inner element (legal XML: a prefix is in scope on the declaring element and below).
+/// Prototype record names (prefix and name), points and everything else must be reported as
+/// before; only the list of root-level extensions legitimately loses the moved entry.
+pub fn scoped_ns(ctx: &Ctx) {
+    let k = [1usize, 5][ctx.pick("document", 2)];
+    let target = ctx.pick("declaring-element", 4);
+    let which = ctx.pick("extension", 2);
+    let d = match doc(k) {
+        Ok(d) => d,
+        Err(e) => {
+            ctx.machinery_error(format!("base document {k}: {e}"));
+            return;
+        }
+    };
+    let xml = &d.xml;
+    // declarations on the root start tag
+    let root_end = e57spec::xml::parse(xml).ok().map(|p| p.root.open_end).unwrap_or(0);
+    let decls: Vec<(usize, usize, String)> = xml[..root_end]
+        .match_indices(" xmlns:")
+        .filter_map(|(i, _)| {
+            let rest = &xml[i + 7..root_end];
+            let eq = rest.find("=\"")?;
+            let end = rest[eq + 2..].find('"')? + eq + 2;
+            Some((i, i + 7 + end + 1, rest[..eq].to_string()))
+        })
+        .filter(|(_, _, pfx)| xml.contains(&format!("<{pfx}:")))
+        .collect();
+    let Some((ds, de, pfx)) = decls.get(which).cloned() else { return };
+    let decl = xml[ds..de].to_string();
+    let Some(rec_at) = xml.find(&format!("<{pfx}:")) else { return };
+    let tag_start = match target {
+        0 => Some(rec_at),
+        1 => xml[..rec_at].rfind("<prototype"),
+        2 => xml[..rec_at].rfind("<points"),
+        _ => xml[..rec_at].rfind("<vectorChild"),
+    };
+    let Some(ts) = tag_start else { return };
+    let Some(te) = xml[ts..].find('>').map(|e| ts + e) else { return };
+    let ins = if xml.as_bytes()[te - 1] == b'/' { te - 1 } else { te };
+    let mut nx = String::new();
+    nx.push_str(&xml[..ds]);
+    nx.push_str(&xml[de..ins]);
+    nx.push_str(&decl);
+    nx.push_str(&xml[ins..]);
+    ctx.describe(|| format!("document {k}: declaration{decl} moved from e57Root to the start tag at offset {ts} ({})", ["the record element", "prototype", "points", "the data3D child"][target]));
+    if e57spec::xml::parse(&nx).is_err() {
+        ctx.machinery_error("the edited document is not well-formed".to_string());
+        return;
+    }
+    let bytes = rebuild(&d, &nx);
+    let strip = |v: Vec<String>| -> Vec<String> { v.into_iter().filter(|l| !l.starts_with("extensions=")).collect() };
+    match guarded(|| (report(&d.bytes), report(&bytes))) {
+        Err(pi) => ctx.violation(format!("{P}/panic/{}", pi.class()), format!("reader panicked at {} ({})", pi.loc, pi.msg)),
+        Ok((Ok(a), Ok(b))) => {
+            let (a, b) = (strip(a), strip(b));
+            if let Some((x, y)) = a.iter().zip(b.iter()).find(|(x, y)| x != y) {
+                ctx.violation(
+                    format!("{P}/extension-declaration-scope"),
+                    format!("with the declaration of prefix {pfx} on {} instead of e57Root the reader reports {} where it reported {}", ["the record element", "prototype", "points", "the data3D child"][target], y.chars().take(400).collect::<String>(), x.chars().take(400).collect::<String>()),
+                );
+                return;
+            }
+            ctx.observe(&bytes);
+            ctx.nontrivial();
+        }
+        Ok((a, b)) => ctx.violation(
+            format!("{P}/extension-declaration-scope/unreadable"),
+            format!("document {k} with the declaration of {pfx} moved to an inner element: {:?} (unchanged document: {:?})", b.err(), a.err()),
+        ),
+    }
+}
+
+/// X4: deep nesting of foreign elements, up to the documented limit of 256 nested tags
+pub fn depth(ctx: &Ctx) {
+    let k = [0usize, 5][ctx.pick("document", 2)];
+    let place = ctx.pick("place", 2); // 0 below e57Root, 1 inside the first data3D child
+    let total = [100usize, 200, 254, 255, 256][ctx.pick("maximum-depth", 5)];
+    let d = match doc(k) {
+        Ok(d) => d,
+        Err(e) => {
+            ctx.machinery_error(format!("base document {k}: {e}"));
+            return;
+        }
+    };
+    let xml = &d.xml;
+    let root_open_end = e57spec::xml::parse(xml).ok().map(|p| p.root.open_end + 1);
+    let (at, base_depth) = if place == 0 {
+        (root_open_end, 1)
+    } else {
+        (xml.find("<data3D").and_then(|s| xml[s..].find("<vectorChild").map(|e| s + e)).and_then(|s| xml[s..].find('>').map(|e| s + e + 1)), 3)
+    };
+    let Some(at) = at else { return };
+    let levels = total - base_depth;
+    let mut ins = String::new();
+    for i in 0..levels {
+        if i == 0 {
+            ins.push_str(&format!("<vx:n {VX}>"));
+        } else {
+            ins.push_str("<vx:n>");
+        }
+    }
+    ins.push_str("leaf");
+    for _ in 0..levels {
+        ins.push_str("</vx:n>");
+    }
+    let nx = format!("{}{}{}", &xml[..at], ins, &xml[at..]);
+    ctx.describe(|| format!("document {k}: {levels} nested foreign elements {} (deepest tag at depth {total})", ["below e57Root", "inside the first data3D child"][place]));
+    let bytes = rebuild(&d, &nx);
+    match guarded(|| (report(&d.bytes), report(&bytes))) {
+        Err(pi) => ctx.violation(format!("{P}/panic/{}", pi.class()), format!("reader panicked at {} ({})", pi.loc, pi.msg)),
+        Ok((Ok(a), Ok(b))) => {
+            if let Some((x, y)) = a.iter().zip(b.iter()).find(|(x, y)| x != y) {
+                ctx.violation(format!("{P}/foreign-element-alters-report/deep-nesting"), format!("{levels} nested foreign elements change the report: {} vs {}", y.chars().take(300).collect::<String>(), x.chars().take(300).collect::<String>()));
+                return;
+            }
+            ctx.observe_u64((k * 100 + place * 10) as u64 + total as u64 * 1000);
+            ctx.nontrivial();
+        }
+        Ok((a, b)) => ctx.violation(
+            format!("{P}/foreign-element-alters-report/deep-nesting-unreadable"),
+            format!("document {k} with foreign elements nested to depth {total} (limit: 256 nested tags): {:?} (unchanged document: {:?})", b.err(), a.err()),
+        ),
+    }
+}
